@@ -22,7 +22,8 @@ LEVEL = "exploration"
 
 ATOMS = ["x", "y z", "p [[ q", "p ]] q", "[[a]]", "{{PAGENAME:}}", "{{PAGENAME}}", "{{#if:|}}", "{{t|}}", "{{t||x}}", "{{lc:}}"]
 # further atoms: used bare and under one wrapper only (they do not multiply through the depth-2 products)
-EXTRA_ATOMS = ["r [1][2] s", "e [] f", 'p<br clear="all">q', '<span id="e"></span>', '<ref name="n" />', "-3", "+1", "}x"]   # void / empty elements with attributes; the last three: cell texts that begin like a table marker
+EXTRA_ATOMS = ["r [1][2] s", "e [] f", "{{t|{{t|x}}\nc}}", "[[a|{{t|x}}\nc]]",   # an argument that goes on after a nested call, on a new line
+               'p<br clear="all">q', '<span id="e"></span>', '<ref name="n" />', "-3", "+1", "}x"]   # void / empty elements with attributes; the last three: cell texts that begin like a table marker
 WRAPS = ["'''%s'''", "''%s''", "[[a|%s]]", "{{t|%s}}", "{{t|k=%s}}", "{{#if:x|%s|z}}", '<span class="c">%s</span>',
          "<b>%s</b>", "[http://x.y %s]", "{{{p|%s}}}"]
 BLOCKS = [
@@ -321,7 +322,7 @@ def gen_docs(tier):
     # pairs of blocks
     # (thorough: every third single block in both positions, and EVERY single block before and after every block kind
     # with plain content; the full square of all single blocks would be 16 million documents)
-    rep = singles1[::3] if not q else singles1[::7]
+    rep = singles1[::3] if not q else singles1[::13]
     for a, b in itertools.product(rep, repeat=2):
         docs.append((a + b, False))
     if not q:
